@@ -108,8 +108,8 @@ class OSMRoadNetwork(RoadNetwork):
         for _, node_data in graph.nodes(data=True):
             # Replace lat/lon with geoid
             node_data["geoid"] = h3.geo_to_h3(
-                node_data.get("x", node_data.get("lat")),
-                node_data.get("y", node_data.get("lon")),
+                node_data.get("y", node_data.get("lat")),
+                node_data.get("x", node_data.get("lon")),
                 sim_h3_resolution,
             )
             for key in ["x", "y", "lat", "lon"]:
@@ -121,6 +121,19 @@ class OSMRoadNetwork(RoadNetwork):
             raise Exception("Was not able to build link helper")
         else:
             self.min_speed_kmph: Kmph = min(link.speed_kmph for link in link_helper.links.values())
+            # the A* estimate must never exceed the true remaining travel time: scale the great
+            # circle distance by the fastest straight-line speed any link of this graph achieves
+            self.max_straight_line_kmph: Kmph = max(
+                (
+                    H3Ops.great_circle_distance(graph.nodes[u]["geoid"], graph.nodes[v]["geoid"])
+                    / (d[TIME_WEIGHT] / SECONDS_IN_HOUR)
+                    for u, v, d in graph.edges(data=True)
+                    if d[TIME_WEIGHT] > 0
+                ),
+                default=self.min_speed_kmph,
+            )
+            if self.max_straight_line_kmph <= 0:
+                self.max_straight_line_kmph = self.min_speed_kmph
             # finish constructing OSMRoadNetwork instance
             self.graph = graph
             self.link_helper = link_helper
@@ -187,7 +200,7 @@ class OSMRoadNetwork(RoadNetwork):
             dist: Kilometers = H3Ops.great_circle_distance(
                 self.graph.nodes[source]["geoid"], self.graph.nodes[dest]["geoid"]
             )
-            time: Hours = dist / self.min_speed_kmph
+            time: Hours = dist / self.max_straight_line_kmph
             return time * SECONDS_IN_HOUR
 
         # start path search from the end of the origin link, terminate search at the start of the
